@@ -49,6 +49,7 @@ def jobs(tier):
     out.append(("v1.urllist-string", "job", dict(version=1, req=0, route="magnet", ws_string=True)))
     for version in (1, 3):
         out.append(("v%d.second-call-in-process" % version, "job", dict(version=version, req=0, route="magnet", warmup=True)))
+        out.append(("v%d.after-failed-edit" % version, "job", dict(version=version, req=0, route="magnet", failed_edit=True)))
     if tier != "quick":
         out.append(("v3.noncanonical-info", "job", dict(version=3, req=0, route="magnet", shuffle=True)))
     return out
@@ -105,7 +106,7 @@ def build_meta(E, version, ws_string=False, shuffle=False):
     return meta, name, trackers, seeds
 
 
-def job(E, version, req, route, ws_string=False, shuffle=False, warmup=False, _mutants=None):
+def job(E, version, req, route, ws_string=False, shuffle=False, warmup=False, failed_edit=False, _mutants=None):
     meta, name, trackers, seeds = build_meta(E, version, ws_string, shuffle)
     fs = AFS()
     stored = ben_copy(meta)
@@ -116,9 +117,32 @@ def job(E, version, req, route, ws_string=False, shuffle=False, warmup=False, _m
         other = {"announce": OStr("other.tr", nonempty=True), "url-list": [OStr("other.ws", nonempty=True)],
                  "info": {"length": 7, "name": OStr("other.name", nonempty=True), "piece length": 16384, "pieces": ew.tok("other.pieces", 20)}}
         fs.add_token("/t/other.torrent", BenTok(other))
-    snap = fs.snapshot()
     w = World(fs, mutants=_mutants)
     C = w.mod("commands")
+    if failed_edit:
+        # the same process has already read this metafile and then attempted an edit of it that failed
+        try:
+            C.magnet("/t/m.torrent")
+            try:
+                w.mod("edit").edit_torrent("/t/m.torrent", {"comment": OStr("e.comment", nonempty=True), "source": OStr("e.source", nonempty=True),
+                                                           "announce": "   "})
+            except Unsupported:
+                raise
+            except Exception:  # noqa: BLE001
+                E.witnesses["edit failed"] = True
+        except Unsupported:
+            raise
+        except Exception as ex:  # noqa: BLE001
+            E.fail("C11.no-exception", "%s: %s" % (type(ex).__name__, ex))
+            return
+        cur = ew.file_obj(fs, "/t/m.torrent")
+        if not E.check(isinstance(cur, dict), "C11.setup.metafile-still-there"):
+            return
+        stored = cur
+        if not ben_equal(cur.get("info"), meta["info"]):
+            return          # the edit went through: a different scenario (covered by C07/C09)
+    snap = fs.snapshot()
+    del fs.log[:]
     try:
         if warmup:
             C.magnet("/t/other.torrent")
@@ -184,7 +208,7 @@ def job(E, version, req, route, ws_string=False, shuffle=False, warmup=False, _m
 
 # ------------------------------------------------------------------ concrete side
 
-NASTY = ["my file & more=100% +#é中%2F.bin", "http://tr.example/ipv4:info/ann?x=1&y=2 z&passkey=ab%2Fcd%3D", "http://[::1]/a+b#f", "udp://türk.example:80/%41",
+NASTY = ["my file & more=100% +#é中%2F e\u0301 \u212b \ufb01.bin",      # also: not stable under NFC / NFKC normalisation "http://tr.example/ipv4:info/ann?x=1&y=2 z&passkey=ab%2Fcd%3D", "http://[::1]/a+b#f", "udp://türk.example:80/%41",
          "http://ws.example/dir name/?q=a&b", "http://w2/ä", "http://w3/+"]
 
 
@@ -278,6 +302,13 @@ def replay(params, model, notes, workdir, seed):
     C = mods["torrentfile.commands"]
     try:
         with contextlib.redirect_stdout(io.StringIO()):
+            if params.get("failed_edit"):
+                C.magnet(mpath)
+                try:
+                    mods["torrentfile.edit"].edit_torrent(mpath, {"comment": "changed", "source": "changed", "announce": "   "})
+                except Exception:  # noqa: BLE001
+                    pass
+                raw = refconc.raw_info_bytes(open(mpath, "rb").read())
             if params.get("warmup"):
                 other = {"announce": "http://other/tr", "url-list": ["http://other/ws"],
                          "info": {"length": 7, "name": "other", "piece length": 16384, "pieces": hashlib.sha1(b"1234567").digest()}}
